@@ -282,7 +282,7 @@ class ObjGen(History):
         rng = self.rng
         t = []
         lab = self.new_label()
-        if rng.random() < 0.9: t.append(f"3={hx(lab)}")
+        if rng.random() < 0.9 or getattr(self, "always_label", False): t.append(f"3={hx(lab)}")
         if rng.random() < 0.5: t.append(f"1={rng.choice(['00', '01'])}")
         if rng.random() < 0.5: t.append(f"2={rng.choice(['00', '01'])}")
         for a in rng.sample(c["attrs"], rng.choice([0, 0, 1, 2])):
@@ -648,3 +648,136 @@ def c12_smallscope(seed, depth, profiles=None, sample=None):
             n += 1
     h.op("fini")
     return h.text(), n
+
+
+# ---------------------------------------------------------------------------------------------------------
+# C05 / C06 / C04 / C14: histories with restarts and directory dumps (the Lean driver decodes the directory independently)
+# ---------------------------------------------------------------------------------------------------------
+class PersistGen(ObjGen):
+    always_label = True        # objects are looked up again by label after a restart: copies get their own
+    def restart(self, kind):
+        """kind: 'reinit' (C_Finalize + C_Initialize), 'exit' (new process without C_Finalize), 'clean' (C_Finalize, new process)"""
+        if kind in ("reinit", "clean"): self.op("fini")
+        if kind in ("exit", "clean"): self.op("reexec")
+        self.op("init"); self.op("slots")
+        self.sessions = []; self.minted = 0
+        self.objects = [o for o in self.objects if o[2]]
+        self.objs2 = [o for o in self.objs2 if o[3]]
+        for t in self.toks: t.login = None
+
+    def refind(self, k, t):
+        """handles do not survive a restart: look every believed token object of t up again by its label"""
+        labels = {o[0]: o[4] for o in self.objects}
+        new2, newo = [], []
+        for o2 in self.objs2:
+            if o2[2] is not t or o2[0] not in labels: new2.append(o2); continue
+            lab = labels[o2[0]]
+            self.op(f"findinit @{k} 3={hx(lab)}"); f = self.op(f"find @{k} 1"); self.op(f"findfinal @{k}")
+            self.minted += 1
+            new2.append((f,) + tuple(o2[1:]))
+            for o in self.objects:
+                if o[0] == o2[0]: newo.append((f,) + tuple(o[1:]))
+        keep = {o[0] for o in newo}
+        self.objects = [o for o in self.objects if o[1] is not t or o[0] not in labels] + newo
+        self.objs2 = new2
+
+
+def persist_history(seed, tables, nops=40, ntok=2, dump_every=4, big=False):
+    rng = random.Random(seed)
+    h = PersistGen(rng, tables)
+    h.prologue(ntok)
+    def sessions():
+        for t in h.toks:
+            k = h.open(t, True); h.login(k, t, 'user'); h.refind(k, t)
+            if rng.random() < 0.5: h.open(t, rng.random() < 0.5)
+    sessions()
+    h.op("dumpdir")
+    for n in range(nops):
+        r = rng.random()
+        k, t, rw = rng.choice(h.sessions)
+        if r < 0.34 or not same(h, t):
+            d = None if rng.random() < 0.8 else rng.choice(["unknown", "wrongsize", "forbidden", "missing", "inconsistent", "foreign"])
+            i = h.create_obj(k, t, on_token=rng.random() < 0.8, defect=d)
+        elif r < 0.44:
+            oi, c, tok, _, _ = rng.choice(same(h, t)); h.getattrs(k, oi, c)
+        elif r < 0.62:
+            oi, c, tok, _, _ = rng.choice(same(h, t)); h.setattrs(k, oi, c)
+        elif r < 0.72:
+            oi, c, tok, _, _ = rng.choice(same(h, t)); h.copy(k, oi, c, tok)
+        elif r < 0.80:
+            oi, c, tok, _, _ = rng.choice(same(h, t)); h.op(f"destroy @{k} @{oi}")
+        elif r < 0.84 and big:
+            lab = h.new_label(); n = rng.choice([1000, 65536, 300000])
+            i = h.op(f"create @{k} 0={ul(0)} 1=01 2={rng.choice(['00', '01'])} 3={hx(lab)} 11={bytes(rng.randrange(256) for _ in range(n)).hex()}"); h.minted += 1
+            c0 = [c for c in h.classes if c["cls"] == 0][0]
+            h.objs2.append((i, c0, t, True, True)); h.objects.append((i, t, True, True, lab, k))
+        elif r < 0.88:
+            h.op(f"findinit @{k}"); h.minted += len(h.objs2); h.op(f"find @{k} 100"); h.op(f"findfinal @{k}")
+        elif r < 0.90:
+            h.logout(k, t); h.login(k, t, 'user')
+        else:
+            h.op("dumpdir")
+            h.restart(rng.choice(["reinit", "exit", "clean"]))
+            sessions()
+            h.op("dumpdir")
+            for t2 in h.toks:
+                ks = [s[0] for s in h.sessions if s[1] is t2]
+                for o in same(h, t2)[:6]: h.getattrs(ks[0], o[0], o[1])
+        if n % dump_every == dump_every - 1: h.op("dumpdir")
+    h.op("dumpdir"); h.op("fini")
+    return h.text()
+
+
+def fixture_ops(tables, seed=20260926):
+    """creation history of the golden fixture: two tokens, PINs (one changed afterwards), objects of every class on token and, for each, public and
+    private; every attribute kind incl. nested templates, mechanism sets, dates on public objects, a 0-byte and a 300 kB value"""
+    rng = random.Random(seed)
+    h = PersistGen(rng, tables)
+    h.prologue(2)
+    labels = []
+    for t in h.toks:
+        k = h.open(t, True); h.login(k, t, 'user')
+        for c in h.classes:
+            for private in (False, True):
+                i = h.create_obj(k, t, c=c, on_token=True, private=private)
+                labels.append(h.objects[-1][4])
+        for private in (False, True):
+            for n in ((0, 300000) if t is h.toks[0] else (0, 1000)):
+                lab = h.new_label(); labels.append(lab)
+                h.op(f"create @{k} 0={ul(0)} 1=01 2={'01' if private else '00'} 3={hx(lab)} 11={(bytes(rng.randrange(256) for _ in range(n)).hex() or '.')}")
+        lab = h.new_label(); labels.append(lab)
+        h.op(f"create @{k} 0={ul(4)} 100={ul(0x1f)} 1=01 2=01 3={hx(lab)} 11={'0f' * 32} 40000600={ul(0x1082)}{ul(0x1085)} 40000211={{162=01;3={hx('inner')};161={ul(32)}}} 40000212={{104=01}}")
+        lab = h.new_label(); labels.append(lab)
+        h.op(f"create @{k} 0={ul(1)} 80={ul(0)} 1=01 2=00 3={hx(lab)} 101={hx('subject')} 11={hx('certvalue')} 110={hx('20260101')} 111={hx('20301231')}")
+        h.op(f"genkey @{k} 1080 1=01 3={hx(h.new_label())} 161={ul(32)} 104=01 105=01"); labels.append(f"obj{h.nlabel}")
+        h.op(f"genpair @{k} 1040 180={P256} 1=01 3={hx(h.new_label())} 10a=01 / 1=01 3={hx(h.new_label())} 108=01 2=01")
+        labels += [f"obj{h.nlabel - 1}", f"obj{h.nlabel}"]
+        h.op(f"logout @{k}")
+    t = h.toks[0]
+    k = [s[0] for s in h.sessions if s[1] is t][0]
+    h.op(f"setpin @{k} {hx(t.user)} {hx('changed-user-pin')}"); t.user = "changed-user-pin"
+    h.op("fini")
+    # the pinned version stores CKA_START_DATE / CKA_END_DATE of PRIVATE objects in the clear and can then not read them back itself (repaired since:
+    # known_findings.txt, C06); such values are not "recorded values" anybody could have relied on, the fixture has dates on public objects only
+    h.lines = [" ".join(w for w in l.split() if not (w.startswith("110=") or w.startswith("111=")) or " 2=01" not in l) for l in h.lines]
+    return h.text(), labels, [(t.label, t.so, t.user) for t in h.toks]
+
+
+def fixture_use_ops(labels, toks, tables):
+    """what today's library must be able to do with the fixture: log in with both PINs of both tokens, find and read every object"""
+    rng = random.Random(1)
+    h = PersistGen(rng, tables)
+    h.op("init"); h.op("slots")
+    for (label, so, user) in toks:
+        k = h.op(f"open t:{hx(label)} 6")
+        h.op(f"login @{k} 0 {hx(so)}"); h.op(f"logout @{k}")
+        h.op(f"login @{k} 1 {hx('wrong-pin')}")
+        h.op(f"login @{k} 1 {hx(user)}")
+        h.op(f"findinit @{k}"); h.op(f"find @{k} 1000"); h.op(f"findfinal @{k}")
+        for lab in labels[label]:
+            h.op(f"findinit @{k} 3={hx(lab)}"); f = h.op(f"find @{k} 2"); h.op(f"findfinal @{k}")
+            for grp in ([0x0, 0x1, 0x2, 0x3, 0x100, 0x80], [0x11, 0x102, 0x10, 0x12, 0x101], [0x103, 0x162, 0x104, 0x105, 0x108, 0x10a, 0x163, 0x164, 0x165, 0x166],
+                        [0x120, 0x122, 0x180, 0x181, 0x130, 0x131, 0x132], [0x110, 0x111, 0x161, 0x90, 0x40000600]):
+                h.op(f"getattr @{f} @{f}" if False else f"getattr @{k} @{f} " + " ".join(f"{a:x}:400000" for a in grp))
+    h.op("dumpdir"); h.op("fini")
+    return h.text()
